@@ -266,7 +266,15 @@ func visitInstr(fr *frame, instr ssa.Instruction) continuation {
 		panic(targetPanic{fr.get(instr.X)})
 
 	case *ssa.Send:
-		fr.get(instr.Chan).(chan value) <- fr.get(instr.X)
+		ch := fr.get(instr.Chan).(chan value)
+		if ch == nil {
+			unsupported("send on nil channel (blocks forever)")
+		}
+		select {
+		case ch <- fr.get(instr.X):
+		default:
+			unsupported("channel send would block: no other goroutine runs under the engine")
+		}
 
 	case *ssa.Store:
 		if fr.i.initStores != nil {
@@ -306,7 +314,10 @@ func visitInstr(fr *frame, instr ssa.Instruction) continuation {
 		fr.i.goStmt(fr, instr, fn, args)
 
 	case *ssa.MakeChan:
-		fr.env[instr] = make(chan value, asInt64(fr.i.concrete(fr.get(instr.Size), "chan size")))
+		// goroutines started by `go` run synchronously (or not at all), so
+		// every channel gets slack: an unbuffered producer/consumer pair
+		// becomes produce-all-then-consume-all.
+		fr.env[instr] = make(chan value, asInt64(fr.i.concrete(fr.get(instr.Size), "chan size"))+4096)
 
 	case *ssa.Alloc:
 		var addr *value
@@ -422,7 +433,14 @@ func visitInstr(fr *frame, instr ssa.Instruction) continuation {
 				Send: send,
 			})
 		}
+		if instr.Blocking {
+			// a blocking select with no ready case would block forever
+			cases = append(cases, reflect.SelectCase{Dir: reflect.SelectDefault})
+		}
 		chosen, recv, recvOk := reflect.Select(cases)
+		if instr.Blocking && chosen == len(cases)-1 {
+			unsupported("select would block: no other goroutine runs under the engine")
+		}
 		if !instr.Blocking {
 			chosen-- // default case should have index -1.
 		}
